@@ -2,7 +2,7 @@ from datetime import datetime
 import itertools
 import uuid
 
-from .helpers import ObjectId, RE_TYPE
+from .helpers import mongodb_to_bool, ObjectId, RE_TYPE
 from . import OperationFailure
 
 import numbers
@@ -91,7 +91,8 @@ class _Filterer(object):
                 continue
             if key == '$expr':
                 parse_expression = self.parse_expression[0]
-                if not parse_expression(search, document, ignore_missing_keys=True):
+                if not mongodb_to_bool(
+                        parse_expression(search, document, ignore_missing_keys=True)):
                     return False
                 continue
             if key in _TOP_LEVEL_OPERATORS:
